@@ -144,6 +144,7 @@ def run(prog, rep, tier):
                       % (fn, r, lo, hi, lo - r, hi - r, nbits, W, '' if inside else ': a target inside the window is decoded outside it'),
                       sample={'fn': fn, 'reference': r, 'offsets': [lo - r, hi - r], 'window': W})
     k1_key_table(prog, rep)
+    k2_sign_safe_shifts(prog, rep)
     # X4 effects
     ne = 0
     for did, cnt in sorted(E.ext_calls.items()):
@@ -162,6 +163,55 @@ def frame_arg(E, st, frame, i):
 
 KEY1 = [0xe43276df, 0xdca83759, 0x9802b8ac, 0x4675a56b]
 KEY1B = [0xfc78ea65, 0x804b90ea, 0xb76542cd, 0x329dfa32]
+
+
+def k2_sign_safe_shifts(prog, rep):
+    """K2 (necessary condition of the round trip; after seed C15-s7): the key schedule is defined on unsigned 32-bit
+    quantities.  Below the function that calls make_key (so with the casts it applies to the timestamp and the
+    address), every right shift inside make_key / its closures / obscure whose left operand has a signed type acts
+    on a value that cannot be negative - otherwise the shift is arithmetic and the key differs from the published
+    schedule for those timestamps (seed: `timestamp as i32`, wrong from 2038 on)."""
+    mk = next((b for b in prog.bodies.values() if b['kind'] == 'fn' and b['name'] == 'decode::flarm::make_key' and b['crate'] == 'rs1090'), None)
+    if mk is None:
+        rep.missing('decode::flarm::make_key')
+        return
+    callers = [b for b in prog.bodies.values() if b['crate'] == 'rs1090' and any(
+        bb['t'] and bb['t']['k'] == 'call' and bb['t']['callee'] and (bb['t']['callee'].get('rdid') or bb['t']['callee'].get('did')) == mk['id'] for bb in b['blocks'])]
+    rep.floor('callers of make_key', len(callers), 1)
+    shifts = {}
+
+    def is_signed(frame, op):
+        ty = None
+        if op['k'] in ('copy', 'move') and not op['pl']['p']:
+            ty = prog.types[frame.body['locals'][op['pl']['l']]]
+        elif op['k'] == 'const' and 'ty' in op:
+            ty = prog.types[op['ty']]
+        return ty is None or ty['k'] != 'uint'
+
+    for caller in callers:
+        E = runner.make_engine(prog, K=8)
+
+        def sh(E_, st, frame, bb, idx, stmt, v):
+            nm = frame.body['name']
+            if not (nm.startswith('decode::flarm::make_key') or nm == 'decode::flarm::obscure'):
+                return
+            rv = stmt['rv']
+            if rv['k'] != 'bin' or rv['op'] != 'Shr' or not is_signed(frame, rv['l']):
+                return
+            x = E_.scalar(st, E_.operand(st, frame, rv['l']))
+            key = (nm, stmt.get('sp'))
+            lo = x[1] if x[0] == 'I' else None
+            old = shifts.get(key)
+            shifts[key] = lo if old is None or (lo is not None and old is not None and lo < old) else (None if lo is None else old)
+            if lo is None:
+                shifts[key] = None
+        E.stmt_hook = sh
+        runner.run_entry(E, caller, quiet=True)
+    rep.floor('right shifts of signed values in the key schedule', len(shifts), 2)
+    for (nm, sp), lo in sorted(shifts.items(), key=str):
+        rep.check(lo is not None and lo >= 0, 'K2-unsigned-schedule', '%s#shr' % nm.split('::')[-1] if '{' not in nm else 'make_key-closure#shr', '%s:%s' % (mk['file'], sp),
+                  'a right shift in %s acts on a signed value that can be negative (lowest value %s): the shift is arithmetic there and the key differs from the published unsigned schedule' % (nm, lo),
+                  sample={'fn': nm, 'lowest_operand': lo})
 
 
 def k1_key_table(prog, rep):
